@@ -33,6 +33,19 @@ type recNode struct {
 	calls   []string // mutating calls in order: "untrust:<id>", "disconnect:<id>", "connect:<uri>", "trust:<id>"
 	failAt  string   // a call name that fails
 	enodeOK bool
+	// slow: every call to the node takes this long (virtual time, controlled executions only) and,
+	// like a real RPC client, fails once its context has ended
+	slow time.Duration
+}
+
+func (n *recNode) rpcDelay(ctx context.Context) error {
+	if n.slow > 0 && vsched.Active() {
+		vsched.Sleep(n.slow)
+		if err := ctx.Err(); err != nil {
+			return err
+		}
+	}
+	return nil
 }
 
 func (n *recNode) NodeRPC() *rpc.Client                  { return nil }
@@ -43,14 +56,23 @@ func (n *recNode) UserAgent() ethnode.UserAgent {
 }
 func (n *recNode) Enode(ctx context.Context) (string, error) { return "enode://" + n.id + "@", nil }
 func (n *recNode) AddTrustedPeer(ctx context.Context, id string) error {
+	if err := n.rpcDelay(ctx); err != nil {
+		return err
+	}
 	n.calls = append(n.calls, "trust:"+id)
 	return nil
 }
 func (n *recNode) RemoveTrustedPeer(ctx context.Context, id string) error {
+	if err := n.rpcDelay(ctx); err != nil {
+		return err
+	}
 	n.calls = append(n.calls, "untrust:"+id)
 	return nil
 }
 func (n *recNode) ConnectPeer(ctx context.Context, uri string) error {
+	if err := n.rpcDelay(ctx); err != nil {
+		return err
+	}
 	n.calls = append(n.calls, "connect:"+uri)
 	if id, host, ok := c18Parse(uri); ok {
 		p := ethnode.PeerInfo{ID: id}
@@ -60,6 +82,9 @@ func (n *recNode) ConnectPeer(ctx context.Context, uri string) error {
 	return nil
 }
 func (n *recNode) DisconnectPeer(ctx context.Context, id string) error {
+	if err := n.rpcDelay(ctx); err != nil {
+		return err
+	}
 	n.calls = append(n.calls, "disconnect:"+id)
 	var keep []ethnode.PeerInfo
 	for _, p := range n.peers {
@@ -71,6 +96,9 @@ func (n *recNode) DisconnectPeer(ctx context.Context, id string) error {
 	return nil
 }
 func (n *recNode) Peers(ctx context.Context) ([]ethnode.PeerInfo, error) {
+	if err := n.rpcDelay(ctx); err != nil {
+		return nil, err
+	}
 	return append([]ethnode.PeerInfo{}, n.peers...), nil
 }
 func (n *recNode) BlockNumber(ctx context.Context) (uint64, error) { return 42, nil }
@@ -487,6 +515,45 @@ func c18Single(shard, nshards int) vh.Unit {
 	}}
 }
 
+// a pool that answers slowly (but answers) and a node whose RPCs take time and honour their
+// context: the round is still carried out completely - no deadline meant for one call may cut
+// short the rest of the round
+func c18SlowRound() vh.Unit {
+	return vh.Unit{Name: "slow-pool-and-node", Run: func(u *vh.U) {
+		for _, strict := range []bool{false, true} {
+			for _, latency := range []time.Duration{0, 9 * time.Second, 40 * time.Second} {
+				for _, nodeSlow := range []time.Duration{0, time.Second, 4 * time.Second} {
+					r := c18Round{states: [4]string{"local+same", "local", "local", "absent"}, invalid: []string{c18Ids[1], c18Ids[2]}, strict: strict, target: 3, kind: ethnode.Geth, nHosts: 2}
+					var ok bool
+					s := vsched.Run(vsched.Options{Drain: false, MaxTime: 24 * time.Hour}, func() {
+						node, sp, a := c18Setup(r)
+						if err := c18Start(a, sp, r); err != nil {
+							u.Violate("agent/start-failed", err.Error(), nil)
+							return
+						}
+						sp.latency, node.slow = latency, nodeSlow
+						ok = c18Run(u, r, node, true, a, sp)
+						sp.latency, node.slow = 0, 0
+						a.Stop()
+					})
+					u.R.Evaluations++
+					u.R.States++
+					u.R.Transitions += int64(len(s.Trace))
+					u.R.Traces++
+					u.Observe(fmt.Sprintf("slow strict=%v pool=%s node=%s ok=%v", strict, latency, nodeSlow, ok))
+					if s.Panic != nil {
+						u.Violate("agent/panic", fmt.Sprintf("pool answering in %s, node calls taking %s: %v", latency, nodeSlow, s.Panic), nil)
+					}
+					if s.Deadlock {
+						u.Violate("agent/hang", fmt.Sprintf("pool answering in %s, node calls taking %s: round never finished; %v", latency, nodeSlow, s.Blocked), nil)
+					}
+				}
+			}
+		}
+		u.Sample("keep-alive rounds against a pool that takes 0/9/40 s to answer and a node whose RPCs take 0/1/4 s and honour their context")
+	}}
+}
+
 // pool errors at each step, and multi-round histories
 func c18ErrorsAndHistories() vh.Unit {
 	return vh.Unit{Name: "errors-and-histories", Run: func(u *vh.U) {
@@ -586,7 +653,55 @@ func c18ErrorsAndHistories() vh.Unit {
 				}
 			}
 		}
-		u.Sample("3-round histories over 4 pool-reply templates x strict on/off; pool errors at Update and Peer")
+		// the same host comes and goes: in every round the pool offers it, declares it invalid (by id
+		// or by URI), or says nothing about it - all 4-round histories. What an earlier round did with
+		// the host (dialled it, dropped it) must not change what this round has to do.
+		hostX := fmt.Sprintf("%0128x", 0xd1)
+		uriX := "enode://" + hostX + "@6.6.6.6:30303"
+		actions := []string{"offer", "invalid-id", "invalid-uri", "quiet"}
+		for _, strict := range []bool{false, true} {
+			for h := 0; h < 256; h++ {
+				r := c18Round{states: [4]string{"local", "absent", "absent", "absent"}, strict: strict, target: 2, kind: ethnode.Geth, nHosts: 0}
+				node, sp, a := c18Setup(r)
+				c18Start(a, sp, r)
+				var hist []string
+				for round, x := 0, h; round < 4; round, x = round+1, x/4 {
+					act := actions[x%4]
+					hist = append(hist, act)
+					var active, inv []string
+					for _, p := range node.peers {
+						if p.EnodeID() == hostX && act != "offer" && act != "quiet" {
+							continue
+						}
+						active = append(active, p.EnodeURI())
+					}
+					sp.peerHosts = nil
+					switch act {
+					case "offer":
+						sp.peerHosts = []store.Node{{ID: store.NodeID(hostX), URI: uriX, IsHost: true}}
+					case "invalid-id":
+						inv = []string{hostX}
+					case "invalid-uri":
+						inv = []string{uriX}
+					}
+					sp.update = &pool.UpdateResponse{ActivePeers: active, InvalidPeers: inv}
+					rr := r
+					rr.invalid = inv
+					rr.states = [4]string{fmt.Sprintf("same-host history %v", hist), "", "", ""}
+					u.R.Evaluations++
+					u.R.States++
+					u.R.Transitions++
+					u.R.Traces++
+					if !c18Run(u, rr, node, false, a, sp) {
+						a.Stop()
+						return
+					}
+				}
+				u.Observe(fmt.Sprint("same-host ", strict, len(node.peers)))
+				a.Stop()
+			}
+		}
+		u.Sample("3-round histories over 4 pool-reply templates x strict on/off; pool errors at Update and Peer; 4-round histories of one host being offered / declared invalid / left alone")
 	}}
 }
 
@@ -602,7 +717,7 @@ func init() {
 			for s := 0; s < n; s++ {
 				us = append(us, c18Single(s, n))
 			}
-			us = append(us, c18ErrorsAndHistories())
+			us = append(us, c18ErrorsAndHistories(), c18SlowRound())
 			return us
 		},
 	})
